@@ -50,7 +50,7 @@ DECIDING = ['file payload == text.encode(charset)', 'loaded text == original',
 TIMEOUT = {'quick': 600, 'thorough': 3600}
 ENV_FULL = True        # cheap enough: every shard runs once in each interpreter environment (core.ENV_MODES)
 CHARSETS = ['latin1', 'ascii', 'utf-8', 'utf-16', 'utf-16-le', 'cp1252', 'cp437', 'iso8859-15',
-            'koi8-r', 'shift_jis', 'euc-jp', 'gb2312', 'big5', 'utf-32', 'utf-8-sig']
+            'koi8-r', 'shift_jis', 'euc-jp', 'gb2312', 'big5', 'utf-32', 'utf-8-sig', 'utf-7', 'iso2022_jp', 'utf-16-be']
 CANDIDATES = (list(range(0x20, 0x7F)) + list(range(0xA0, 0x100)) + list(range(0x391, 0x3CA))
               + list(range(0x410, 0x450)) + list(range(0x3041, 0x3094)) + list(range(0x30A1, 0x30F7))
               + list(range(0x4E00, 0x4E80)) + list(range(0x2500, 0x2520)) + [0x20AC, 0x2122, 0x152, 0x160]
@@ -95,9 +95,33 @@ def rand_text(rng, cs, n=None):
             except UnicodeError:
                 continue
     n = rng.choice((0, 1, 2, 5, 12, 40)) if n is None else n
+    if rng.random() < 0.15:
+        # plain ASCII text: in charsets that are no superset of ASCII (utf-16, utf-7, iso2022_jp) its bytes differ too
+        return ''.join(rng.choice('Piano +-~&A1 ') for _ in range(max(n, 1)))
     # prefer non-ASCII so that the charset matters
     hi = [c for c in al if ord(c) > 127] or al
     return ''.join(rng.choice(hi if rng.random() < 0.7 else al) for _ in range(n))
+
+
+class Label(str):
+    """A user's str subclass whose str() is not its characters."""
+
+    def __str__(self):
+        return 'LABEL'
+
+    def __format__(self, spec):
+        return 'LABEL'
+
+
+def dress(rng, text):
+    """The same characters as an instance of a str subclass (a plain one, a str-Enum member)."""
+    r = rng.random()
+    if r < 0.1:
+        return Label(text)
+    if r < 0.2 and text:
+        import enum
+        return enum.Enum('Section', {'CHORUS': text}, type=str).CHORUS
+    return text
 
 
 def probe():
@@ -124,7 +148,7 @@ def build_file(rng, cs, ntext=None):
         for _ in range(rng.randrange(1, 5) if ntext is None else ntext):
             t = rng.choice(rmeta.TEXT_TYPES)
             s = rand_text(rng, cs)
-            tr.append(MetaMessage(t, **{rmeta.SPECS[t][1][0]: s}, time=rng.choice((0, 1, 200))))
+            tr.append(MetaMessage(t, **{rmeta.SPECS[t][1][0]: dress(rng, s)}, time=rng.choice((0, 1, 200))))
             texts.append((ti, t, s))
             if rng.random() < 0.5:
                 tr.append(Message('note_on', note=rng.randrange(128), time=rng.choice((0, 3, 130))))
@@ -195,7 +219,11 @@ def roundtrip(ctx, cs, seed):
     try:
         variants = [('save(path) fresh', mid), ('save(path) existing', mid), ('save(path) existing again', mid),
                     ('copy.copy', copy.copy(mid)), ('copy.deepcopy', copy.deepcopy(mid)),
-                    ('pickle', pickle.loads(pickle.dumps(mid))), ('loaded', MidiFile(file=io.BytesIO(b), charset=cs))]
+                    ('loaded', MidiFile(file=io.BytesIO(b), charset=cs))]
+        try:
+            variants.append(('pickle', pickle.loads(pickle.dumps(mid))))
+        except pickle.PicklingError:
+            pass            # (a text of a locally defined class cannot be pickled: the harness's own doing)
         for label, obj in variants:
             try:
                 if label.startswith('save(path)'):
@@ -274,6 +302,36 @@ def long_text_case(ctx, cs, n_ascii):
         ctx.fail('loaded text == original', f'long-text:{type(exc).__name__}:{cs}', case, f'{type(exc).__name__}: {str(exc)[:100]}')
         restore_default()
     check_probe(ctx, 'default charset after successful call', 'leak-after-long-text', case)
+
+
+def exact_payload_case(ctx, cs, nbytes):
+    """A text whose encoding is exactly nbytes long (up to the reader's documented limit of 1 000 000)."""
+    case = {'kind': 'exact-payload', 'charset': cs, 'payload_bytes': nbytes}
+    hi = [c for c in alphabet(cs) if len(c.encode(cs)) > 1][:1]
+    unit = len('a'.encode(cs)) if cs not in ('utf-16', 'utf-32', 'utf-8-sig') else None
+    if unit is None:
+        return 0
+    text = ''
+    if hi and (nbytes - len(hi[0].encode(cs))) % unit == 0:
+        text = hi[0]
+    rest = nbytes - len(text.encode(cs))
+    if rest % unit:
+        return 0
+    text = 'a' * (rest // unit) + text
+    if len(text.encode(cs)) != nbytes:
+        return 0
+    try:
+        mid = MidiFile(charset=cs)
+        mid.tracks.append(MidiTrack([MetaMessage('text', text=text, time=1)]))
+        buf = io.BytesIO()
+        mid.save(file=buf)
+        back = MidiFile(file=io.BytesIO(buf.getvalue()), charset=cs)
+        ctx.check('loaded text == original', back.tracks[0][0].text == text, f'exact-payload:{cs}', case, len(back.tracks[0][0].text))
+    except Exception as exc:
+        ctx.fail('loaded text == original', f'exact-payload:{type(exc).__name__}:{cs}', case, f'{type(exc).__name__}: {str(exc)[:100]}')
+        restore_default()
+    check_probe(ctx, 'default charset after successful call', 'leak-after-exact-payload', case)
+    return 1
 
 
 def context_manager_case(ctx, cs):
@@ -562,6 +620,9 @@ def run(ctx):
                 long_text_case(ctx, cs, off)
                 ctx.nontrivial(('long-text', cs, off))
                 k += 1
+    for ci, (cs, nb) in enumerate([(c, b) for c in ('latin1', 'utf-8', 'shift_jis', 'utf-16-le') for b in (999999, 1000000)]):
+        if ci % N == (sh + 7) % N and (ctx.tier == 'thorough' or nb == 1000000):
+            k += exact_payload_case(ctx, cs, nb)
     nest = [(o, i) for o in ('utf-8', 'utf-16', 'shift_jis', 'cp1252', 'latin1') for i in ('latin1', 'utf-8', 'cp437', 'latin-1', 'iso-8859-1')
             if o != i]
     for ni, (o, i) in enumerate(nest):
